@@ -554,20 +554,23 @@ class Bits:
             if offset is None:
                 offset = 0
             m = mmap.mmap(source.fileno(), 0, access=mmap.ACCESS_READ)
-            if offset == 0:
+            whole_file = BitStore.frombuffer(m)
+            if offset < 0:
+                raise bitstring.CreationError(f"The offset of {offset} bits is negative.")
+            if length is not None and length < 0:
+                raise bitstring.CreationError("Can't create bitstring with a negative length.")
+            if offset > len(whole_file):
+                raise bitstring.CreationError(f"The offset of {offset} bits is greater than the file length ({len(whole_file)} bits).")
+            if length is not None and offset + length > len(whole_file):
+                raise bitstring.CreationError(f"Can't use a length of {length} bits and an offset of {offset} bits as file length is only {len(whole_file)} bits.")
+            if offset == 0 and (length is None or length == len(whole_file)):
+                # The whole file, used directly from the memory map.
                 self._filename = source.name
-                self._bitstore = BitStore.frombuffer(m, length=length)
+                self._bitstore = whole_file
             else:
-                # If offset is given then always read into memory.
-                temp = BitStore.frombuffer(m)
-                if length is None:
-                    if offset > len(temp):
-                        raise bitstring.CreationError(f"The offset of {offset} bits is greater than the file length ({len(temp)} bits).")
-                    self._bitstore = temp.getslice(offset, None)
-                else:
-                    self._bitstore = temp.getslice(offset, offset + length)
-                    if len(self) != length:
-                        raise bitstring.CreationError(f"Can't use a length of {length} bits and an offset of {offset} bits as file length is only {len(temp)} bits.")
+                # A window of the file is always read into memory, so that it behaves like any other bitstring.
+                end = None if length is None else offset + length
+                self._bitstore = whole_file.getslice_msb0(offset, end)
 
     def _setbitarray(self, ba: bitarray.bitarray, length: Optional[int], offset: Optional[int]) -> None:
         if offset is None:
